@@ -4,3 +4,5 @@ import Spade.Properties.C09
 #print axioms Spade.C09_face_unique
 #print axioms Spade.C09_vertex_excludes_edge
 #print axioms Spade.C09_face_excludes_outside
+#print axioms Spade.C09_locate_sound
+#print axioms Spade.C09_step_sound
